@@ -5,6 +5,17 @@ From ApiFu Require Import Base.Sexp Fut.Plan Fut.Future Fut.ExecAsync Fut.ExecSy
      Fut.Live Fut.LiveFacts Fut.Acct Fut.AsyncWrap.
 Import ListNotations.
 
+Lemma must_catch_ok nn q esc inner : must_catch nn q false esc inner = inner.
+Proof. destruct nn; reflexivity. Qed.
+
+Ltac must_solve :=
+  cbn [spec_CI spec_W spec_CF spec_F ps_must ps_fails ps_esc]; unfold must_CI, must_CF; intros;
+  match goal with
+  | N : ?b = false, F : _ = true |- _ => try rewrite N in F; rewrite N; rewrite F; reflexivity
+  | N : ?b = true |- _ => rewrite N; reflexivity
+  | F : _ = false |- _ => rewrite F; apply must_catch_ok
+  end.
+
 (** ** catch around a list item *)
 Lemma budget_CI_eq inn x q :
   budget_CI inn x q = cbud inn (spec_W inn x q) q (budget_I x q).
@@ -35,6 +46,9 @@ Section CI.
     - unfold spec_CI, spec_W, fails_w, jc; simpl. intros N F. rewrite N in F. simpl in F.
       rewrite orb_false_r in F. now rewrite F.
     - intros N. unfold spec_CI, spec_W, cand_catch; simpl. now rewrite N.
+    - must_solve.
+    - must_solve.
+    - must_solve.
   Qed.
 
   Lemma CI_step :
@@ -52,6 +66,9 @@ Section CI.
     - unfold spec_CI, spec_W, fails_w, jc; simpl. intros N F. rewrite N in F. simpl in F.
       rewrite orb_false_r in F. now rewrite F.
     - intros N. unfold spec_CI, spec_W, cand_catch; simpl. now rewrite N.
+    - must_solve.
+    - must_solve.
+    - must_solve.
   Qed.
 End CI.
 
@@ -82,6 +99,9 @@ Section CF.
     - intros N G s c g L. unfold L0, L1 in *. now constructor.
     - unfold spec_CF, spec_F; simpl. intros N F. now apply jf_fail_null.
     - intros N. unfold spec_CF, spec_F, cand_catch; simpl. now rewrite N.
+    - must_solve.
+    - must_solve.
+    - must_solve.
   Qed.
 
   Lemma CF_step :
@@ -95,6 +115,9 @@ Section CF.
       + right. split; auto. eexists _, _. repeat split; eauto.
     - unfold spec_CF, spec_F; simpl. intros N F. now apply jf_fail_null.
     - intros N. unfold spec_CF, spec_F, cand_catch; simpl. now rewrite N.
+    - must_solve.
+    - must_solve.
+    - must_solve.
   Qed.
 End CF.
 
@@ -126,7 +149,7 @@ Qed.
 
 (** ** small state facts *)
 Lemma sle_add_ev e s : sle s (add_ev e s).
-Proof. split; simpl; [apply hle_refl | apply proms_le_refl]. Qed.
+Proof. apply sle_heap; [apply hle_refl | reflexivity | reflexivity]. Qed.
 
 Lemma same_acct_add_ev e s : same_acct s (add_ev e s).
 Proof. repeat split. Qed.
@@ -138,7 +161,7 @@ Lemma ResOK_W_F G s tag nn v p r :
   ResOK G s (spec_W nn v p) r -> ResOK G s (spec_F (FP tag nn (Some v)) p) r.
 Proof.
   unfold ResOK, spec_W, spec_F, fails_w; simpl. destruct r as [gv|e]; auto.
-  intros [F V]. split; auto. apply orb_false_iff in F. destruct F as [F _]. now rewrite F.
+  intros (F & V & M). split; auto. apply orb_false_iff in F. destruct F as [F _]. rewrite F. auto.
 Qed.
 
 Lemma Outcome_W_F G s g tag nn v p f :
@@ -223,7 +246,7 @@ Section Field.
       split.
       + eapply Step_trans; [exact St1|].
         split; [apply gle_refl|]. split.
-        { split; simpl; [apply hle_refl|]. intros i pr H. exists pr. split; auto.
+        { split; simpl; [apply hle_refl|]. split; [|apply incl_refl]. intros i pr H. exists pr. split; auto.
           rewrite nth_error_app1; auto. apply nth_error_Some. congruence. }
         split; [exact I|].
         constructor; simpl.
@@ -297,7 +320,7 @@ Section Field.
          G (with_chans c1 s) {| g_sites := sites; g_ids := []; g_pot := pot |}.
   Proof.
     intros I T. destruct (chan_take_some _ _ _ _ T) as (A & B & D).
-    split; [apply gle_refl|]. split; [split; simpl; [apply hle_refl | apply proms_le_refl]|].
+    split; [apply gle_refl|]. split; [apply sle_heap; [apply hle_refl | reflexivity | reflexivity]|].
     split; [exact I|]. constructor; simpl.
     - exists [], []. rewrite app_nil_r. repeat split; [constructor | apply sub_perm_refl].
     - exists []. rewrite app_nil_r. split; auto. split; auto. intros [|k] pr X; discriminate.
